@@ -15,6 +15,8 @@ solver's own (V, lambda) (2^-30 relative)."""
 import itertools
 import os
 import re
+import threading
+from fractions import Fraction
 
 import vlib
 
@@ -23,6 +25,7 @@ LEAN_MODULES = ["TapkeeVerif.Props.C11"]
 LEAN_EXES = ["model_c11"]
 REQUIRED_THEOREMS = [
     "TapkeeVerif.Landmarks.landmarks_distinct_and_counted",
+    "TapkeeVerif.Landmarks.landmarks_distinct_and_counted_compiled",
     "TapkeeVerif.Landmarks.selectLandmarks_defined",
     "TapkeeVerif.Landmarks.lmds_landmarks_eq_mds_of_subset",
     "TapkeeVerif.Landmarks.triangulate_fixes_landmarks",
@@ -47,6 +50,14 @@ def fields(line):
             k, v = tok.split("=", 1)
             out[k] = v
     return out
+
+
+def parse_exact(tok):
+    """`m:e`, `a/b` or an integer as an exact Fraction"""
+    if ":" in tok:
+        m, e = tok.split(":")
+        return Fraction(int(m)) * (Fraction(2) ** int(e))
+    return Fraction(tok)
 
 
 def show_mat(rows):
@@ -191,9 +202,18 @@ def judge_sel(run, cases):
         if sorted(perm) != list(range(n)):
             ctx.broken("contract:shuffle", "contract: random_shuffle returns a permutation",
                        "tapkee::random_shuffle did not return a permutation of 0..N-1", case=line, detail=io)
-        # oracle (property text)
+        # oracle (property text): "the integer part of landmark_ratio*N".  Reading judged here: the product is the one a
+        # program can form, the IEEE double product of the double ratio and N, truncated — computed HERE with Python's
+        # own IEEE arithmetic from the exact value of the ratio the harness reports (independent of the Lean model);
+        # the exact-arithmetic reading floor(N*r) is computed alongside (Fractions) and its disagreements are counted.
         count = int(o["count"])
+        rq = parse_exact(o["r"])
+        reading_double = int(float(n) * float(rq))          # float(Fraction) is exact for a 53-bit dyadic
+        reading_exact = (Fraction(n) * rq).__floor__()
         exact = int(m.get("exact", -1))
+        if exact != reading_exact:
+            ctx.broken("corr:sel-exact", "model landmarkCount vs exact floor", "Lean landmarkCount differs from floor(N*r) "
+                       "computed with Python Fractions", case=line, detail={"lean": exact, "python": reading_exact})
         bad = None
         if len(set(lm)) != len(lm):
             bad = "landmarks are not distinct"
@@ -203,11 +223,11 @@ def judge_sel(run, cases):
             bad = "size mismatch"
         elif o["replay"] != "1":
             bad = "the same seed does not reproduce the landmark set"
-        elif count != exact and count != int(m.get("count", -1)):
-            bad = "number of landmarks %d is not the integer part of ratio*N = %d" % (count, exact)
+        elif count != reading_double:
+            bad = "number of landmarks %d is not the integer part of ratio*N = %d (double product; exact floor %d)" % (
+                count, reading_double, reading_exact)
         if bad:
-            ctx.fail("sel:oracle:" + bad.split()[0] + "-" + bad.split()[-1] if False else "sel:oracle",
-                     "select_landmarks_random: " + bad, case=line, detail={"impl": io, "model": mo})
+            ctx.fail("sel:oracle", "select_landmarks_random: " + bad, case=line, detail={"impl": io, "model": mo})
             continue
         if count != exact:
             ctx.stat("sel:double-product-differs-from-exact-floor")
@@ -323,6 +343,8 @@ def judge_lmds(run, cases):
             continue
         lm = [] if o.get("lm", "-") == "-" else [int(x) for x in o["lm"].split(",")]
         c.lm = lm
+        if io.startswith("api noseed"):
+            ctx.stat("lmds:no-seed-found-for-wanted-prefix(dropped)")
         if "exc" in o or "Y" not in o:
             continue
         if nonfinite_solver_answer(ctx, c, o, "lmds"):
@@ -529,8 +551,24 @@ def judge_lisomap(run, cases):
             ctx.broken("corr:lisomap-pre", "correspondence LandmarkIsomap: matrix handed to the eigensolver vs lisomapPre",
                        "the matrix Landmark Isomap hands to the eigensolver differs from the model (%s)" % pre,
                        case=c.line, detail=detail)
+        c.verdict = t
         if t.get("root") != "ok":
             ctx.stat("lisomap:root-contract-bad")
+            ctx.broken("contract:fourth-root", "contract: sqrt(sqrt(lambda))",
+                       "the fourth-root contract q^4 = lambda is violated by the observed values", case=c.line, detail=detail)
+        if c.eig == "dense" and t.get("eig") != "eig=ok" and t.get("eig") not in ("ok", "na"):
+            ctx.stat("lisomap:eig-contract-" + str(t.get("eig")))
+            ctx.broken("contract:eig", "contract: eigensolver (residual / orthonormality) on B*B^T",
+                       "the dense eigensolver's answer for Landmark Isomap violates its contract: %s" % t.get("eig"),
+                       case=c.line, detail=detail)
+        if c.eig == "dense":
+            # oracle on the output, independent of the solver's eigenvectors
+            if t.get("svd", "ok").startswith("bad"):
+                ctx.fail("lisomap:svd-embedding", "Landmark Isomap's result is not the scaled singular directions of the centred "
+                         "squared landmark geodesics (%s)" % t.get("svd"), case=c.line, detail=detail)
+            if t.get("top") == "bad":
+                ctx.fail("lisomap:not-top-d", "Landmark Isomap's eigenvalues are not the d largest of B*B^T (trace test)",
+                         case=c.line, detail=detail)
         post = t.get("post", "?")
         if t.get("model") == "ok" and (post.startswith("diff") or post == "nonfinite"):
             ctx.broken("corr:lisomap-post", "correspondence LandmarkIsomap: embedding vs lisomapPost on the solver's own (V, lambda)",
@@ -562,8 +600,17 @@ def judge_lisomap(run, cases):
             rc, cls, _ = ctx.run_model("model_c11", ["negdom neg=%s lamd=%s norm=%s" % (f["neg"], f["lamd"], f["norm"])])
             cf = fields(cls[0]) if cls else {}
             negdom, rankdef = cf.get("negdom") == "1", cf.get("rankdef") == "1"
+            # witness class of the two OPEN findings: the output IS what the model of Landmark Isomap prescribes for the
+            # observed one-directional geodesics (solver input, post-processing, SVD-level oracle, top-d all fine) and
+            # differs from Isomap only because of (a) a dominating negative eigenvalue / (b) asymmetric geodesics.
+            # Anything else keeps a different signature and is reported.
+            v = getattr(c, "verdict", {})
+            consistent = (v.get("model") == "ok" and not v.get("pre", "?").startswith(("diff", "bad"))
+                          and v.get("post") in ("eq", "close") and v.get("svd") == "ok" and v.get("top") == "ok"
+                          and v.get("eig") == "ok" and v.get("root") == "ok")
             sig = "lisomap:ratio-one" + ("" if sym else ":asymmetric-geodesics") + \
-                  (":negative-eigenvalue-dominates" if negdom else ":rank-deficient" if rankdef else "")
+                  (":negative-eigenvalue-dominates" if negdom else ":rank-deficient" if rankdef else "") + \
+                  ("" if consistent else ":output-inconsistent-with-model")
             ctx.fail(sig, "Landmark Isomap with every sample a landmark differs from Isomap (Gram %s)%s%s%s" % (
                 g, "" if sym else "; the k-NN geodesics are asymmetric",
                 "; the centred geodesic matrix has a negative eigenvalue larger in magnitude than its d-th positive one" if negdom else "",
@@ -681,7 +728,8 @@ def lisomap_cases(r, quick):
 def sweep(run, quick):
     ctx = run.ctx
     hi_model = 200000 if quick else 1000000
-    out = run.impl(["sweep num=3 lo=1 hi=1000000"])
+    sweep_hi = 1000000
+    out = run.impl(["sweep num=3 lo=1 hi=%d" % sweep_hi])
     mo = run.model(["sweep num=3 lo=1 hi=%d" % hi_model])
     if mo is None or not out or out[0].startswith("abort"):
         ctx.broken("corr:sweep", "sweep", "sweep did not run: %s" % (out[:1],))
@@ -689,7 +737,7 @@ def sweep(run, quick):
     bad = [] if fields(out[0])["bad"] == "-" else [tuple(int(x) for x in t.split(":")) for t in fields(out[0])["bad"].split(",")]
     mf = fields(mo[0])
     mbad = [] if mf["bad"] == "-" else [tuple(int(x) for x in t.split(":")) for t in mf["bad"].split(",")]
-    ctx.count("sweep", True, n=1000000)
+    ctx.count("sweep", True)                      # one evaluation; the swept N are reported under double_product_sweep
     sub = [b for b in bad if b[0] <= hi_model]
     if sub != mbad:
         diff = sorted(set(sub) ^ set(mbad))[:5]
@@ -704,8 +752,12 @@ def sweep(run, quick):
     if wrong:
         ctx.broken("corr:sweep-real", "sweep expression vs select_landmarks_random",
                    "the swept expression does not describe the real function at N=%s" % (wrong[:3],), case=lines[0])
+    for ln in lines:
+        ctx.count(ln, True)
     ctx.extra["double_product_sweep"] = {
-        "what": "N in 1..10^6 with ratio = 3.0/N (smallest ratio validate() accepts): number of landmarks the code selects",
+        "what": "ratio = 3.0/N (smallest ratio validate() accepts): number of landmarks the compiled count expression selects",
+        "N_values_swept_by_harness_this_run": sweep_hi,
+        "N_values_swept_by_lean_model_this_run": hi_model,
         "N_with_fewer_than_3_landmarks": len(bad), "first": [b[0] for b in bad[:12]],
         "model_rne53_agrees_up_to": hi_model,
         "exact_floor_of_N_times_double_ratio_differs_from_3": mf.get("exactbad"),
@@ -718,7 +770,7 @@ def full_api(run, cases):
     """thorough: the same cases through tapkee::with(..).withDistance(..).embedRange(..) (all 20 methods instantiated,
     embed.hpp front end) must print exactly what the light harness prints"""
     ctx = run.ctx
-    binary, log = ctx.build_harness("c11_landmarks.cpp", name="c11_landmarks_full", flags=FLAGS, extra=["-DC11_FULL_API"])
+    binary, log = build_full(ctx)
     if not binary:
         ctx.broken("harness-build-full", "harness c11_landmarks.cpp -DC11_FULL_API",
                    "full-API harness does not compile against the repository: " + log[-1200:])
@@ -739,7 +791,25 @@ def full_api(run, cases):
 
 
 # ----------------------------------------------------------------------------- entry points
+FULL_FLAGS = [("-g1" if f == "-g" else f) for f in FLAGS]
+
+
+def build_full(ctx):
+    """the same harness through tapkee::with(..).withDistance(..).embedRange(..) (all 20 methods; -O0 -g1, cached)"""
+    return ctx.build_harness("c11_landmarks.cpp", name="c11_landmarks_full", flags=FULL_FLAGS, extra=["-DC11_FULL_API"])
+
+
 def build(ctx):
+    # both builds at once (the full-chain one takes about twice as long; both are cached by content hash)
+    t = threading.Thread(target=lambda: build_full(ctx))
+    t.start()
+    try:
+        return build_light(ctx)
+    finally:
+        t.join()
+
+
+def build_light(ctx):
     binary, log = ctx.build_harness("c11_landmarks.cpp", flags=FLAGS)
     if not binary:
         ctx.broken("harness-build", "harness c11_landmarks.cpp", "harness does not compile against the repository: " + log[-1200:])
@@ -840,9 +910,16 @@ def correspond(ctx):
     for i in range(0, len(lis), 200):
         judge_lisomap(run, lis[i:i + 200])
     ctx.log("lisomap done")
-    if not quick:
+    # the real public chain: a few cases of every family in quick, 250 in thorough
+    if quick:
+        by_label = {}
+        for c in cases + ex[:40] + lis:
+            by_label.setdefault(type(c).__name__ + c.label, []).append(c)
+        sample = [c for l in sorted(by_label) for c in by_label[l][:2]]
+        full_api(run, sample + [case_from_line(l) for l in corpus if l.startswith("api ")])
+    else:
         full_api(run, cases[:150] + lis[:100])
-        ctx.log("full public API build compared")
+    ctx.log("full public API build compared")
     ctx.cov["rule"] = ("select: N 1..%d, boundary ratios 3/N, k/N, dyadic, 1, 0; triangulate: exact-mode (integer callback values, "
                        "dyadic V, power-of-two eigenvalues, repeated landmarks, zero eigenvalue); Landmark MDS / Landmark Isomap "
                        "through the method classes: exact-mode integer metrics with N, n_l powers of two (== required), Euclidean "
@@ -855,5 +932,6 @@ def correspond(ctx):
         "eigensolver, sqrt and the shuffle enter as contracts checked on the observed values (residual/orthonormality 2^-30, sqrt 2^-40, permutation)",
         "approx-mode comparisons use 2^-30 relative tolerance on values the model computes exactly from the implementation's own (V, lambda, sqrt)",
         "Gram-level comparisons are skipped (counted as degenerate) when the spectral gap at d is below 2^-20 of the norm",
-        "the harness repeats the body of tapkee::embed for the four method classes (compile time); thorough additionally runs the tapkee::with(...) chain build",
+        "most cases drive validate()+embed() of the four method classes through a copy of tapkee::embed's body (compile time); a sample of every family (quick) / 250 cases (thorough) also goes through the real tapkee::with(...).embedRange chain and must print identical lines",
+        "landmark count oracle: 'integer part of landmark_ratio*N' is read as the truncated IEEE double product of the double ratio and N (computed independently in Python); disagreements with the exact-arithmetic floor are counted (sel:double-product-differs-from-exact-floor)",
     ]
